@@ -47,7 +47,7 @@ def build(spec, tmp):
         shutil.rmtree(root)
     ds = Dataset.create(path=root, metadata=Metadata(description="it"), dataset_structure=DatasetStructure(
         saved_data_description=[Attribute(name="a", dtype="int32", shape=(1,))], shard_file_type=spec.get("format", "fb"),
-        compression=spec.get("compression", ""), examples_per_shard=spec["eps"], hash_checksum_algorithms=("sha256",)))
+        compression=spec.get("compression", ""), examples_per_shard=spec["eps"], hash_checksum_algorithms=tuple(spec.get("algs", ["sha256"]))))
     base = 0
     for s in spec["sessions"]:
         if s.get("set_eps"):
